@@ -12,6 +12,8 @@ from . import speclang
 class GoVerifier(GoExec, SpecMixin, CallsMixin, StmtsMixin):
     def number_loops(self, decl):
         loops, objtypes = {}, {}
+        if not hasattr(self, 'global_objs'):
+            self.global_objs = {}
         cnt = [0]
         def walk(n):
             if isinstance(n, list):
@@ -22,6 +24,8 @@ class GoVerifier(GoExec, SpecMixin, CallsMixin, StmtsMixin):
                     loops[(n['line'], n['col'])] = cnt[0]
                 if n.get('_') == 'Ident' and isinstance(n.get('obj'), dict) and n['obj'].get('kind') == 'Var' and 't' in n['obj']:
                     objtypes[n['obj']['id']] = n['obj']['t']
+                    if n['obj'].get('global'):
+                        self.global_objs[n['obj'].get('pkg', '') + '.' + n['obj']['name']] = n['obj']
                 for k, v in n.items():
                     if k in ('obj', 'sel', 'implicit'): continue
                     if isinstance(v, (dict, list)): walk(v)
@@ -102,6 +106,13 @@ class GoVerifier(GoExec, SpecMixin, CallsMixin, StmtsMixin):
         if c:
             for cl in c.get('ghost'):
                 self.ghost_assign(st, SpecEnv(st, {}, None), cl)
+            for cl in c.get('initval'):
+                for gk in cl.text.replace(',', ' ').split():
+                    g = self.dump.get('globals', {}).get(gk)
+                    if g is None or 'init' not in g:
+                        raise Unsupported('initval: no initializer for %s' % gk)
+                    st.ghost[('global', gk)] = self.ev(st, g['init'])
+                    self.assumed.add('package variable %s holds its initial value' % gk)
         entry = st.clone()
         st.entry = entry
         entry.entry = entry
@@ -115,7 +126,12 @@ class GoVerifier(GoExec, SpecMixin, CallsMixin, StmtsMixin):
         if body is None:
             raise Unsupported('function without body')
         def run(state):
-            self.block(state, body.get('List'))
+            try:
+                self.block(state, body.get('List'))
+            except (ReturnEx, PanicEx):
+                self.run_defers(state)
+                raise
+            self.run_defers(state)
             return None
         exits = self.run_paths(st, run)
         n_ret = n_pan = 0
@@ -190,6 +206,13 @@ class GoVerifier(GoExec, SpecMixin, CallsMixin, StmtsMixin):
         for i, e in enumerate(lem.get('ensures')):
             self.oblige(st, 'lemma-post#%d' % (i + 1), self.sev_bool(env, e.expr), src=e.line)
         return fr
+
+    def run_defers(self, state):
+        """deferred calls run LIFO at every exit (arguments are evaluated here, not at the defer statement: sound only for
+        defers whose operands are not reassigned, which the subset requires)"""
+        ds, state.defers = state.defers, []
+        for call in reversed(ds):
+            self.ev(state, call)
 
     def check_return(self, state, entry, c, rnames, vals, n):
         if c is None:
